@@ -33,7 +33,10 @@ RULE_ADDED = (
               's in its home command and malformed in every kind. '
               ' '
               'Round 11: string values with their own first / last characters repeated; brother'
-              ' lists mixing headers and non-headers. ')
+              ' lists mixing headers and non-headers. '
+              ' '
+              'Round 12: every member also under names that are nearly its own (other case, bla'
+              "nks, a neighbour's name). ")
 RULE = RULE + " " + RULE_ADDED.strip()
 ASSUMPTIONS = [
     "the reference classifier (pv/oracle/docs_protocol.py) is a reading of docs/protocol.md and "
@@ -411,6 +414,40 @@ def gen_requests(spec):
                     r = copy.deepcopy(base)
                     r[fld] = copy.deepcopy(val)
                     yield v1, name, "foreign:%s=%s" % (fld, kind_of(val)), r
+        # a member under a name that is nearly its own (other case, a blank, a neighbour's
+        # name): the documented member is then missing and an undocumented one present
+        def dict_paths(obj, prefix=()):
+            if isinstance(obj, dict):
+                for kk, vv in obj.items():
+                    yield prefix + (kk,)
+                    yield from dict_paths(vv, prefix + (kk,))
+        for name, base in b.items():
+            for pth in list(dict_paths(base)):
+                key_ = pth[-1]
+                near = [key_.lower(), key_.upper(), key_[:1].swapcase() + key_[1:], key_ + " ",
+                        " " + key_, key_ + "_", key_[:-1], key_.replace("C", "c", 1),
+                        key_.replace("H", "h", 1)]
+                siblings = {"sighashComputationMode": ["outpointValue", "witnessScript", "hash"],
+                            "receipt_merkle_proof": ["receiptMerkleProof", "receipt_merkle_proofs"],
+                            "keyId": ["keyID", "keyid", "key_id"], "blocks": ["block"],
+                            "brothers": ["brother", "uncles"], "udValue": ["udvalue", "ud_value"]}
+                for nk in dict.fromkeys(near + siblings.get(key_, [])):
+                    if nk == key_ or not nk:
+                        continue
+                    k += 1
+                    if k % n != sh:
+                        continue
+                    r = copy.deepcopy(base)
+                    node = r
+                    for q in pth[:-1]:
+                        node = node[q]
+                    if nk in node:
+                        continue
+                    # same position, same value, other name
+                    items = [(nk if kk == key_ else kk, vv) for kk, vv in node.items()]
+                    node.clear()
+                    node.update(items)
+                    yield v1, name, "renamed:%s->%s" % (".".join(pth), nk.strip() or "blank"), r
         # random multi-deviations
         nrand = (6000 if spec["tier"] == "quick" else 600000)
         names = list(b)
@@ -439,7 +476,7 @@ def shards(tier, seed):
     return [{"shard": i, "n": n, "tier": tier, "seed": seed} for i in range(n)]
 
 
-def make_device(rng):
+def make_device(rng, platform="ledger"):
     # every signature the device hands out is well-formed DER, of every shape a real
     # device produces: r and s of 1..33 bytes (minimal-length integers)
     srng = random.Random(rng.getrandbits(32))
@@ -452,13 +489,15 @@ def make_device(rng):
             yield fresh_sig()
     hb = {"signature": fresh_sig, "message": rng.randbytes(70),
           "tweak": rng.randbytes(32), "pubkey": rng.randbytes(65)}
-    dev = SimDevice(platform="ledger", mode=MODE_SIGNER,
+    dev = SimDevice(platform=platform, mode=MODE_SIGNER,
                     pubkeys={path_to_binary(p): rng.randbytes(65) for p in ALL_PATHS},
                     state={"hashes": {h: rng.randbytes(32) for h in
                                       (1, 2, 3, 5, 0x81, 0x82, 0x84)},
                            "difficulty": 5, "flags": (0, 0, 0)},
                     hb=dict(hb), uihb=dict(hb), sign_policy={"any_path": True},
                     adv_policy={"any_brother_count": True}, any_path=True, signatures=sigs())
+    if platform == "sgx":
+        dev.unlocked = True
     return dev
 
 
